@@ -10,19 +10,33 @@ import json, os, subprocess, sys, tempfile, shutil
 V='/verif'
 idx=json.load(open(f'{V}/selftest/mutants/index.json'))
 want=set(sys.argv[1:])
-wt=tempfile.mkdtemp(prefix='govc-selftest-')
-os.rmdir(wt)
-subprocess.run(['git','-C','/repo','worktree','add','--detach','-f',wt,'HEAD'],check=True,capture_output=True)
-bad=0
-try:
-    for m in idx:
-        if want and m['property'] not in want: continue
+from concurrent.futures import ThreadPoolExecutor
+import threading
+todo=[m for m in idx if not want or m['property'] in want]
+NW=min(3,len(todo)) or 1
+wts=[]
+for k in range(NW):
+    w=tempfile.mkdtemp(prefix='govc-selftest-'); os.rmdir(w)
+    subprocess.run(['git','-C','/repo','worktree','add','--detach','-f',w,'HEAD'],check=True,capture_output=True)
+    wts.append(w)
+free=list(wts); lock=threading.Lock(); results=[]
+def one(m):
+    with lock: wt=free.pop()
+    try:
+        return run_one(m,wt)
+    finally:
+        with lock: free.append(wt)
+def run_one(m,wt):
+    bad=0
+    if True:
         subprocess.run(['git','-C',wt,'checkout','-q','--','.'],check=True)
         subprocess.run(['git','-C',wt,'clean','-fdq'],check=True)
         p=subprocess.run(['git','-C',wt,'apply',f"{V}/selftest/mutants/{m['patch']}"],capture_output=True,text=True)
         if p.returncode!=0:
-            print(f"BROKEN  {m['patch']}: patch does not apply: {p.stderr.strip()[:200]}"); bad+=1; continue
-        r=subprocess.run([f'{V}/bin/govc','check','-prop',m['property'],'-repo',wt,'-no-evidence'],capture_output=True,text=True,cwd=V)
+            print(f"BROKEN  {m['patch']}: patch does not apply: {p.stderr.strip()[:200]}"); return 1
+        env=dict(os.environ, VERIF_OUT=tempfile.mkdtemp(prefix='govc-selftest-out-'))
+        r=subprocess.run([f'{V}/bin/govc','check','-prop',m['property'],'-repo',wt,'-no-evidence'],capture_output=True,text=True,cwd=V,env=env)
+        shutil.rmtree(env['VERIF_OUT'],ignore_errors=True)
         out=r.stdout
         if m['expect']=='fail':
             ok = r.returncode==1 and 'VIOLATION' in out and (m.get('obligation','') in out)
@@ -32,7 +46,12 @@ try:
         if not ok:
             bad+=1
             print('        '+'\n        '.join(out.strip().splitlines()[-6:]))
+    return bad
+try:
+    with ThreadPoolExecutor(NW) as ex:
+        bad=sum(ex.map(one,todo))
 finally:
-    subprocess.run(['git','-C','/repo','worktree','remove','--force',wt],capture_output=True)
-    shutil.rmtree(wt,ignore_errors=True)
+    for wt in wts:
+        subprocess.run(['git','-C','/repo','worktree','remove','--force',wt],capture_output=True)
+        shutil.rmtree(wt,ignore_errors=True)
 sys.exit(1 if bad else 0)
